@@ -251,6 +251,9 @@ fn alphabet(seed: u64) -> Vec<Val> {
     add("\"1\"", "Cell::from(\"1\")", Cell::from("1"), false);
     add(&format!("\"{}\"", long), "Cell::from(\"é\".repeat(38))", Cell::from(long.clone()), true);
     add("\"#fmt\"", "Cell::from(\"#fmt\")", Cell::from("#fmt"), false);
+    // multi-byte blanks in front of characters that are valid nowhere (character index != byte offset)
+    add("\"\u{2003}zz\"", "Cell::from(\"\\u{2003}zz\")", Cell::from("\u{2003}zz"), false);
+    add("\"ff\u{a0}\u{a0}\u{a0}q0\"", "Cell::from(\"ff\\u{a0}\\u{a0}\\u{a0}q0\")", Cell::from("ff\u{a0}\u{a0}\u{a0}q0"), false);
     // bit-strings
     let b1 = Xbitstr::from(vec![0b1011_0100u8]);
     let b4 = Xbitstr::from(vec![1u8, 2, 3, 0x84]);
@@ -544,6 +547,24 @@ fn api_ops() -> Vec<ApiOp> {
     for s in ["1 2 +", "#(", "1 #( 2", ": f", "[ 1", "begin 1 drop repeat", ": g 1 ; g", "foo"] {
         v.push(ApiOp { name: "compile", kind: 1, src: s });
     }
+    // multi-word scenarios: the parsing module's own variables set to extreme values and then used,
+    // extreme enum values, a failing token at a very large column
+    for s in [
+        "18446744073709551615 ! output-length",
+        "|ff| emit",
+        "18446744073709551615 ! offset",
+        "-1 ! offset",
+        "nil ! input",
+        "\"x\" ! big?",
+        "u8 remain 8 bits dump",
+        "|01| find nulbytestr",
+        "close-bitstr",
+        "enum e 170141183460469231731687303715884105727 = a : b endenum",
+    ] {
+        v.push(ApiOp { name: "eval", kind: 0, src: s });
+    }
+    let far: &'static str = Box::leak(format!("{}zz9", " ".repeat(70_000)).into_boxed_str());
+    v.push(ApiOp { name: "eval", kind: 0, src: far });
     v.push(ApiOp { name: "run", kind: 2, src: "" });
     v.push(ApiOp { name: "next", kind: 3, src: "" });
     v.push(ApiOp { name: "rnext", kind: 4, src: "" });
@@ -556,7 +577,9 @@ fn api_ops() -> Vec<ApiOp> {
 }
 
 fn api_show(o: &ApiOp) -> String {
-    if o.kind <= 1 {
+    if o.kind <= 1 && o.src.len() > 200 {
+        format!("{}(<{} blanks>{})", o.name, o.src.len() - o.src.trim_start().len(), o.src.trim_start())
+    } else if o.kind <= 1 {
         format!("{}({:?})", o.name, o.src)
     } else {
         o.name.to_string()
